@@ -13,6 +13,12 @@ LEVEL_TEXT = ("Static analysis of /repo's current source (go/packages + go/ssa, 
 
 # id -> (technique, what is decided, design_ref)
 CLAIMED = {
+    "C02": ("enum switch tables (exhaustive, value classes), key-shape agreement of all table operations followed through helpers, effects + call-graph reachability for the expiry, dominance (not-expired edge, free-probe edge), affine port-range check, mirror rule for the 1:1 helpers",
+            "mapping key classes per behaviour; table keys agree and are separated; both tables updated together; expiry written only on outbound paths and always on reuse; mappings handed out only when not expired; external port in range and free; 1:1 pairing with port preserved",
+            "DESIGN.md section 3 C02"),
+    "C03": ("enum switch tables compared across the two translations, dominance of the rewrite by mapping-found and exact permission lookup, must-pass of permission recording, effects closure of the inbound path, provenance of the rewritten destination and pushed chunk",
+            "filter key classes agree outbound/inbound; admission only after mapping found and exact key present; destination rewritten to the mapping's .local on the returned clone; permission recorded on every outbound success path; inbound path writes nothing but the clone; router pushes only on nil error; unpaired 1:1 refused",
+            "DESIGN.md section 3 C03"),
     "C14": ("belief-contradiction rule over all peek() sites, dominance (due edge), must-pass-through with infeasible-edge pruning (timer re-arm), provenance of the due time, exact linear form of the router cut-off, FIFO shape of the queue",
             "peek results guarded before use; pop/forward only when due; one forward per pop of the wrapped chunk; due time = Now()+delay at arrival; only timedChunk pushed; timer re-armed on every path after tick/Stop; router pops only when timestamp <= now-minDelay and stamps at enqueue; FIFO queue",
             "DESIGN.md section 3 C14"),
